@@ -18,6 +18,7 @@
 #include <cstring>
 #include <fstream>
 #include <functional>
+#include <limits>
 #include <map>
 #include <set>
 #include <sstream>
@@ -227,10 +228,12 @@ static void window_model(const std::string & dir, int nmax, Result & R)
         stag += (f ? "+" : "") + std::to_string(splits[si][f]);
       }
       for (int start = 0; start <= N + 1; start++)
-        for (int max = 0; max <= N + 1; max++) {
+        for (int maxi = 0; maxi <= N + 3; maxi++) {
+          // "no limit" given as the largest int (start + max then exceeds the int range): to the end of the stream
+          int max = maxi <= N + 1 ? maxi : (maxi == N + 2 ? std::numeric_limits<int>::max() : std::numeric_limits<int>::max() - 1);
           // expected slice
           std::vector<int> expected;
-          for (int k = start; k < N && (max == 0 || k < start + max); k++) expected.push_back(k);
+          for (int k = start; k < N && (max == 0 || (long long)k < (long long)start + max); k++) expected.push_back(k);
           R.states++;
           // call patterns: number of has_next calls before each load, in {0,1,2,3}; 3 calls after exhaustion
           int nl = (int)expected.size();
@@ -248,6 +251,7 @@ static void window_model(const std::string & dir, int nmax, Result & R)
               cfg.max_nb_events = max;
               event_reader rd(cfg);
               long p = pat;
+              event shared_e = stream_event(N + 3); // starts out holding something else
               int delivered = 0;
               bool bad = false;
               std::string trace;
@@ -277,7 +281,10 @@ static void window_model(const std::string & dir, int nmax, Result & R)
                   }
                 }
                 if (bad || k == nl) break;
-                event e;
+                // the caller's event object: a new one per load, or (every second call pattern) one object handed to
+                // every load of the run - what it held before must not show
+                event fresh_e;
+                event & e = (pat % 2) ? shared_e : fresh_e;
                 rd.load_next_event(e);
                 R.transitions++;
                 trace += "l";
